@@ -243,7 +243,8 @@ def run(ctx, args):
         raise vlib.MachineryError("vacuous: no read case with a missing required field")
     labs = [("f0", prog, []), ("ftd", universe.present_typedef(prog, 2), []), ("finc", universe.present_include(prog), [])]
     if thorough:
-        labs += [("fku", prog, ["keep_unknown_fields"]), ("fvt", prog, ["value_type_in_container", "enum_as_int_32"])]
+        # (-g fastgo:value_type_in_container does not compile: C01 known finding C01-fastgo-value-type-in-container)
+        labs += [("fku", prog, ["keep_unknown_fields"]), ("fvt", prog, ["enum_as_int_32", "naming_style=golint"])]
     run_lab(ctx, labs, sc, cases, "fast", 1 if thorough else 2)
     return ctx.finish(
         rule="C02's program universe plus structs with 9/17 required fields, struct map keys and 4-deep containers, "
